@@ -77,7 +77,7 @@ type Config struct {
 	Credentials    map[string]string
 	Chunk          int // delivery chunking: 0 whole, >0 fixed, <0 random
 	GateBackend    bool
-	AckMode        int // backend ack: 0 synchronous, 1 late (driver releases), 2 never
+	AckMode        int // backend ack: 0 synchronous, 1 late (driver releases, in order), 2 never, 3 late in seeded order
 	SockBuf        int // >0: bounded broker->peer socket buffer (not used yet)
 	ParkN          int // >0: park broker goroutines at gomqtt lock sites with probability 1/ParkN
 }
@@ -464,16 +464,18 @@ func (p *probeBackend) Restore(c *broker.Client) error {
 
 func (p *probeBackend) wrapAck(i int, call string, msg *packet.Message, ack broker.Ack) broker.Ack {
 	w := p.w
+	if ack == nil {
+		// the broker passes no acknowledgement for a will: the backend must see
+		// exactly that (MemoryBackend's behaviour may - wrongly - depend on it)
+		return nil
+	}
 	return func() {
 		w.ev(&Ev{K: EvBkCommit, C: i, Call: call, M: msg})
-		if ack == nil {
-			return
-		}
 		switch w.Cfg.AckMode {
 		case 0:
 			w.ev(&Ev{K: EvAckRel, C: i, Call: call, M: msg})
 			ack()
-		case 1:
+		case 1, 3:
 			w.lateAcks = append(w.lateAcks, &lateAck{i, call, msg, ack})
 		default:
 			w.Res.Count("acks_withheld", 1)
@@ -950,8 +952,16 @@ func (w *World) progress(releaseAcks bool) bool {
 		}
 	}
 	if releaseAcks && len(w.lateAcks) > 0 {
-		la := w.lateAcks[0]
-		w.lateAcks = w.lateAcks[1:]
+		k := 0
+		if w.Cfg.AckMode == 3 && len(w.lateAcks) > 1 {
+			// late and in no particular order (another goroutine of the backend)
+			k = w.Sched.Intn(len(w.lateAcks))
+			if k > 0 {
+				w.Res.Count("acks_released_out_of_order", 1)
+			}
+		}
+		la := w.lateAcks[k]
+		w.lateAcks = append(w.lateAcks[:k:k], w.lateAcks[k+1:]...)
 		w.ev(&Ev{K: EvAckRel, C: la.c, Call: la.call, M: la.msg, S: "late"})
 		la.fn()
 		did = true
